@@ -92,7 +92,7 @@ func TestC11Binary(t *testing.T) {
 				break
 			}
 			if time.Now().After(deadline) {
-				rt.Fatalf("the binary does not answer on %s: %s", addr, clipS(logs.String()))
+				rt.Fatalf("positive control: the binary does not answer on %s: %s", addr, clipS(logs.String()))
 			}
 			time.Sleep(20 * time.Millisecond)
 		}
